@@ -20,7 +20,9 @@ func init() {
 
 var c05Lookalikes = []string{"", "1", "1.5", "true", "null", "~", "yes", "no", "on", "2001-01-01", "0x10", "0o17", "1e3", "#c", "a: b", "---", "+++", "- x", "'q'", "\"q\"",
 	"a\nb", " lead", "trail ", "{}", "[]", "a.b", "é", "\t", "=", "[t]", "a\n---\nb", "a\n+++\nb", "<<", "*x", "&x", "!t", "|", ">", "%", "@", "`", ".inf", "-", "?", ":", ",",
-	"NULL", "True", "1_000", "0.1.2", "\\n", "x", "k: [1", "\"", "'", "a #b", "2001-01-01T00:00:00Z", "010", "+1", ".5", "y", "n", " ", "a\r\nb"}
+	"NULL", "True", "1_000", "0.1.2", "\\n", "x", "k: [1", "\"", "'", "a #b", "2001-01-01T00:00:00Z", "010", "+1", ".5", "y", "n", " ", "a\r\nb", " ",
+	// multi-line strings whose white space a block scalar would swallow or mistake for indentation
+	"\n", "\nx", "x\n", "\n\n", "x\n\n", "  x\ny", "x\n  y", "x\n\ty", "\tx\ny", "x\n \ny", "x\n\t\n", "a\n\nb", "\n  \t"}
 
 var c05Numbers = []any{0, 1, -1, 2147483648, math.MaxInt64, math.MinInt64, 0.1, 1.5, 2.0, 1e21, 1e-7, -0.5}
 
@@ -348,7 +350,7 @@ func buildC05(tier string) *core.Plan {
 		}}
 	return &core.Plan{
 		Spaces: []core.Space{roundTrip, cliSpace, multiSpace},
-		Rule: "every single-document stream built from 64 look-alike strings (as root, key, value, list entry, nested), 12 boundary numbers, bools and empty containers; all trees up to 3 nodes over a reduced look-alike alphabet; every stream of 2-4 documents over an 8-document pool; " +
+		Rule: "every single-document stream built from 78 look-alike strings (incl. multi-line strings with significant leading/trailing/inner white space) (as root, key, value, list entry, nested), 12 boundary numbers, bools and empty containers; all trees up to 3 nodes over a reduced look-alike alphabet; every stream of 2-4 documents over an 8-document pool; " +
 			"each in all 6 output formats (TOML: map-rooted only); CLI matrix -f x -o extension x (virtual) input extension x real format",
 		Assumptions: []string{"decode(encode(docs)) is compared by value (2.0 may read back as 2) with bkl's decoder, with a fresh Parser loading the bytes as a file, and with Python json / PyYAML under a YAML 1.2 core-schema resolver / tomllib",
 			"strings contain no $ (they would be directives when re-read as a file)"},
